@@ -7,6 +7,7 @@ CONSTANTS
   AllowCorrupt = TRUE
   AllowRuns = TRUE
   Sim = TRUE
+  DynOnly = FALSE
   DynOpts <- AllDynOpts
 INVARIANTS Agree Emit
 CHECK_DEADLOCK FALSE
